@@ -254,7 +254,8 @@ def load (b : Bytes) : (ty : Ty) → St → Res (Val ty)
     (loadCount b s).bind fun n s1 => (loadN (loadPair (load b k) (load b v)) n s1).map (mmapOfList (lt k))
   | .arr t n, s => loadN (load b t) n s
 
-def St.init : St := { ptr := 0, reads := [] }
+/-- state after `archive::str(bytes)` -/
+def St.init : St := { ptr := Gen.strPtr, reads := [] }
 
 /-- `archive a; a.str(bytes); archive_traits<T>::load(v,a)` -/
 def loadArchive (ty : Ty) (b : Bytes) : Res (Val ty) := load b ty St.init
